@@ -428,3 +428,71 @@ func c13FreshPool(c *Ctx) {
 		c.Unresolved("C13.R3", "non-nil pool returns of GetX509Pool")
 	}
 }
+
+// c13ManagerFromUpdatedConfig (R7): an updated listener's TLS manager is built from the updated configuration.
+// AddOrUpdateListener copies the new settings into the listener's stored config and then builds a new TLS context
+// manager from that config. Everything the constructor reads (computed from NewTLSServerContextManager and its callees:
+// inspector, the filter chains' TLS contexts, the name) must have been copied *before* the call; a field assigned after
+// it makes the manager keep the previous value while the stored (dumped) config shows the new one - e.g. plaintext keeps
+// being accepted on a listener whose inspector was switched off.
+func c13ManagerFromUpdatedConfig(c *Ctx) {
+	ctor := c.F("pkg/mtls", "NewTLSServerContextManager")
+	upd := c.M("pkg/server", "connHandler", "AddOrUpdateListener")
+	if ctor == nil || upd == nil {
+		c.Unresolved("C13.R7", "mtls.NewTLSServerContextManager / connHandler.AddOrUpdateListener")
+		return
+	}
+	// fields of the listener config the constructor reads (first and second level names)
+	reads := map[string]bool{}
+	for f := range staticReach([]*ssa.Function{ctor}, "pkg/mtls") {
+		forEachInstr(f, true, func(_ *ssa.Function, in ssa.Instruction) {
+			fa, ok := in.(*ssa.FieldAddr)
+			if !ok {
+				return
+			}
+			tn := typeName(fa.X.Type())
+			if strings.HasSuffix(tn, "v2.Listener") || strings.HasSuffix(tn, "v2.ListenerConfig") || strings.HasSuffix(tn, "v2.FilterChain") || strings.HasSuffix(tn, "v2.FilterChainConfig") {
+				reads[derefStruct(fa.X.Type()).Field(fa.Field).Name()] = true
+			}
+		})
+	}
+	delete(reads, "ListenerConfig")
+	delete(reads, "FilterChainConfig")
+	if len(reads) < 2 {
+		c.Unresolved("C13.R7", fmt.Sprintf("listener-config fields read by NewTLSServerContextManager (found %d)", len(reads)))
+		return
+	}
+	var names []string
+	for n := range reads {
+		names = append(names, n)
+	}
+	sort.Strings(names)
+	n := 0
+	for _, cs := range callsIn(upd, false, func(cc *ssa.CallCommon) bool { return cc.StaticCallee() == ctor }) {
+		cfg := cs.Instr.Common().Args[0]
+		// only the call that rebuilds from the stored config of an existing listener (its argument is not the parameter)
+		if _, isParam := cfg.(*ssa.Parameter); isParam {
+			continue
+		}
+		n++
+		var late []string
+		forEachInstr(upd, false, func(_ *ssa.Function, in ssa.Instruction) {
+			st, ok := in.(*ssa.Store)
+			if !ok {
+				return
+			}
+			_, f, _, okf := fieldAddrInfo(st.Addr)
+			if !okf || !reads[f] || rootOf(st.Addr) != rootOf(cfg) {
+				return
+			}
+			if existsPath(upd, cs.Instr, func(x ssa.Instruction) bool { return x == in }, nil) != nil {
+				late = append(late, f)
+			}
+		})
+		sort.Strings(late)
+		c.Check("C13.R7", fmt.Sprintf("%s:manager-built-after-config-copied#%d", funcKey(upd), n), cs.Instr.Pos(), len(late) == 0, "every field the TLS manager constructor reads ("+strings.Join(names, ",")+") is copied into the stored config before the manager is built", "the stored listener config field(s) "+strings.Join(late, ",")+" are assigned after the TLS context manager was built from that config: the manager keeps the previous setting (e.g. still accepts plaintext although inspector was switched off) while the configuration shows the new one")
+	}
+	if n < 1 {
+		c.Unresolved("C13.R7", "rebuild of the TLS manager in the update branch of AddOrUpdateListener")
+	}
+}
